@@ -18,7 +18,7 @@ caught = [l.split()[0] for l in det if re.search(r'rc=1 violations=[1-9]', l)]
 meta = {
     'property': name.split('-')[0],
     'round': rnd,
-    'breaks': agent.get('summary', ''),
+    'breaks': agent.get('summary', '') or agent.get('breaks', ''),
     'needs_to_manifest': agent.get('needs_to_manifest', ''),
     'files_touched': agent.get('files_touched', []),
     'confirmed_by_me': {
